@@ -209,3 +209,87 @@ Theorem C06_nested_lists_roundtrip : forall l,
   parse_full (kk tok_StartExpression :: nl_tokens (NList l)) = Some (nl_tree (NList l)).
 Proof. exact nested_lists_roundtrip. Qed.
 Print Assumptions C06_nested_lists_roundtrip.
+
+(* ------------------------------------------------------------------ TEXT -> TOKENS -> TREE (owner: ext-lexer; coq/C06/Lexer.v, LexerProofs.v, LexerText.v) *)
+From DV Require Import C06.Lexer C06.LexerProofs C06.LexerText.
+
+(* the model of Lexer::next_token iterated (keywords with their terminators, symbols, numerals, string literals, names through the
+   part collector of C10, the between / type-name flags) reads back every printable token list from the text with one space after
+   every token.  keys_ok: the scope keys are single words (name characters that are not white space as well), pairwise different,
+   no keyword spelling, no built-in type name.  printable: names are scope keys, not where a type is expected; type names are one of
+   number string boolean Any Null time and stand where a type is expected; `and` is the separator exactly while the between flag is
+   set; numerals are digits with an optional fraction; strings consist of Unicode scalar values; For / Some / Every / Function /
+   Context / Range / List / Not and the date-time names are outside (till_in flag, look-ahead terminators, unary-tests flag) *)
+Theorem C06_lex_unlex : forall keys ts, keys_ok keys = true -> printable keys ts = true -> lex keys (unlex ts) = Some ts.
+Proof. exact lex_unlex. Qed.
+Print Assumptions C06_lex_unlex.
+
+(* the same with any layout of the grammar of C06_layout_skipped before the first token and, behind one space, after every token
+   (gap_ok: pieces of that grammar that do not contain U+1680, which is white space and a name character at once) *)
+Theorem C06_lex_unlex_layout : forall keys ts lead gaps, keys_ok keys = true -> printable keys ts = true ->
+  forallb piece_ok lead = true -> forallb gap_ok gaps = true ->
+  lex keys (render_layout lead ++ unlex_lay gaps ts) = Some ts.
+Proof. exact lex_unlex_layout. Qed.
+Print Assumptions C06_lex_unlex_layout.
+
+(* text level, all trees of the operator fragment: parse_text = lexer model, then the lexer's tokens read as tokens of the Spec (abs),
+   then the Spec parser.  enc / dec: any dictionary that writes every atom number as a literal or a scope key and reads it back
+   (atoms_ok).  Side conditions on the rendering: type numbers < 6 and member names positions in keys (tok_wf), and flag_ok: no `and`
+   token while the lexer's between flag is set, i.e. the tree is outside the known finding between-lower-bound-and *)
+Theorem C06_text_roundtrip_min : forall keys enc dec t, keys_ok keys = true -> atoms_ok keys enc dec ->
+  flag_ok false (render_min t) = true -> forallb (tok_wf keys) (render_min t) = true ->
+  parse_text keys dec (unlex (conc_all keys enc (render_min t))) = Some t.
+Proof. intros keys enc dec t Hk Ha. exact (text_roundtrip_min keys enc dec Hk Ha t). Qed.
+Print Assumptions C06_text_roundtrip_min.
+
+Theorem C06_text_roundtrip_full : forall keys enc dec t, keys_ok keys = true -> atoms_ok keys enc dec ->
+  flag_ok false (render_full t) = true -> forallb (tok_wf keys) (render_full t) = true ->
+  parse_text keys dec (unlex (conc_all keys enc (render_full t))) = Some t.
+Proof. intros keys enc dec t Hk Ha. exact (text_roundtrip_full keys enc dec Hk Ha t). Qed.
+Print Assumptions C06_text_roundtrip_full.
+
+Theorem C06_text_roundtrip_min_layout : forall keys enc dec t lead gaps, keys_ok keys = true -> atoms_ok keys enc dec ->
+  flag_ok false (render_min t) = true -> forallb (tok_wf keys) (render_min t) = true ->
+  forallb piece_ok lead = true -> forallb gap_ok gaps = true ->
+  parse_text keys dec (render_layout lead ++ unlex_lay gaps (conc_all keys enc (render_min t))) = Some t.
+Proof. intros keys enc dec t lead gaps Hk Ha. exact (text_roundtrip_min_layout keys enc dec Hk Ha t lead gaps). Qed.
+Print Assumptions C06_text_roundtrip_min_layout.
+
+Theorem C06_text_roundtrip_full_layout : forall keys enc dec t lead gaps, keys_ok keys = true -> atoms_ok keys enc dec ->
+  flag_ok false (render_full t) = true -> forallb (tok_wf keys) (render_full t) = true ->
+  forallb piece_ok lead = true -> forallb gap_ok gaps = true ->
+  parse_text keys dec (render_layout lead ++ unlex_lay gaps (conc_all keys enc (render_full t))) = Some t.
+Proof. intros keys enc dec t lead gaps Hk Ha. exact (text_roundtrip_full_layout keys enc dec Hk Ha t lead gaps). Qed.
+Print Assumptions C06_text_roundtrip_full_layout.
+
+(* whatever the Spec parser makes of a token list (also none, or another tree: the removal theorems above), it makes of its text *)
+Theorem C06_parse_text_unlex : forall keys enc dec ts, keys_ok keys = true -> atoms_ok keys enc dec ->
+  flag_ok false ts = true -> forallb (tok_wf keys) ts = true ->
+  parse_text keys dec (unlex (conc_all keys enc ts)) = parse_tokens ts.
+Proof. intros keys enc dec ts Hk Ha. exact (parse_text_unlex keys enc dec Hk Ha ts). Qed.
+Print Assumptions C06_parse_text_unlex.
+
+(* not vacuous: a dictionary exists for every key set (atom a = the numeral of a + 1 ones) ... *)
+Example C06_text_atoms_nonvacuous : forall keys, atoms_ok keys enc_unary dec_unary.
+Proof. exact atoms_unary. Qed.
+Print Assumptions C06_text_atoms_nonvacuous.
+
+(* ... and a tree with names, numerals, between, unary minus, instance of and a path meets the side conditions; its text is
+   `( a + 11 ) * b between 1 and ( - c ) instance of number . d ` *)
+Example C06_text_nonvacuous :
+  keys_ok keys_ex = true /\ flag_ok false (render_min tree_ex) = true /\ forallb (tok_wf keys_ex) (render_min tree_ex) = true /\
+  unlex (conc_all keys_ex enc_ex (render_min tree_ex)) =
+    [40; 32; 97; 32; 43; 32; 49; 49; 32; 41; 32; 42; 32; 98; 32; 98; 101; 116; 119; 101; 101; 110; 32; 49; 32; 97; 110; 100; 32; 40; 32; 45; 32; 99; 32; 41; 32;
+     105; 110; 115; 116; 97; 110; 99; 101; 32; 111; 102; 32; 110; 117; 109; 98; 101; 114; 32; 46; 32; 100; 32]%N /\
+  parse_text keys_ex dec_ex (unlex (conc_all keys_ex enc_ex (render_min tree_ex))) = Some tree_ex.
+Proof. exact text_example. Qed.
+Print Assumptions C06_text_nonvacuous.
+
+(* the side condition flag_ok cannot be dropped (known finding between-lower-bound-and, behaviour of the code as it is):
+   `a between b and c and d` is the minimal rendering of a between (b and c) and d for the Spec parser, the lexer delivers the first
+   `and` as the separator and the text parses to (a between b and c) and d *)
+Theorem C06_text_between_lower_and_refuted :
+  flag_ok false (render_min tree_band) = false /\ parse_tokens (render_min tree_band) = Some tree_band /\
+  parse_text keys_ex dec_ex (unlex (conc_all keys_ex enc_ex (render_min tree_band))) = Some (Bin And (Btw (Atom 1) (Atom 3) (Atom 5)) (Atom 7)).
+Proof. exact text_band_witness. Qed.
+Print Assumptions C06_text_between_lower_and_refuted.
